@@ -80,11 +80,11 @@ IMMB = [r'S_class_tbb__detail__d2__concurrent_bounded_queue\*\)v_\w+\)\)\.f[34]$
 UNITS['cqx1_2'] = dict(wrapper='w_cq.cpp', mode='lcs', unroll=1, cxxflags=['-DELEM=1', '-DFAULTS=1'], exceptions=True, allow_atomic=['__clang_call_terminate'], lvalpath=True, immutable=IMM, threads=thr('vp_thr_q', 2))
 # REALCPP=2: everything of concurrent_monitor.h real except binary_semaphore::P/V and the bounded spin of the monitor mutex
 MONCUT = ['16binary_semaphore1PEv', '16binary_semaphore1VEv', 'timed_spin_wait_until']
-UNITS['bqm1_2'] = dict(wrapper='w_cq.cpp', mode='lcs', unroll=1, cxxflags=['-DELEM=1', '-DBOUNDED=1', '-DREALCPP=2', '-D__TBB_BUILD=1'], cut=MONCUT, devirt=['sleep_node'], prune=True,
+UNITS['bqm1_2'] = dict(wrapper='w_cq.cpp', mode='lcs', unroll=1, cxxflags=['-DELEM=1', '-DBOUNDED=1', '-DREALCPP=2', '-D__TBB_BUILD=1'], cut=MONCUT, devirt=['sleep_node', 'delegated_function'], prune=True,
                        lvalpath=True, immutable=IMMB, threads=thr('vp_thr_q', 2))
-UNITS['bqmf1_2'] = dict(wrapper='w_cq.cpp', mode='lcs', unroll=1, cxxflags=['-DELEM=1', '-DBOUNDED=1', '-DREALCPP=2', '-DFAULTS=1', '-D__TBB_BUILD=1'], cut=MONCUT, devirt=['sleep_node'], prune=True,
+UNITS['bqmf1_2'] = dict(wrapper='w_cq.cpp', mode='lcs', unroll=1, cxxflags=['-DELEM=1', '-DBOUNDED=1', '-DREALCPP=2', '-DFAULTS=1', '-D__TBB_BUILD=1'], cut=MONCUT, devirt=['sleep_node', 'delegated_function'], prune=True,
                         exceptions=True, allow_atomic=['__clang_call_terminate'], lvalpath=True, immutable=IMMB, threads=thr('vp_thr_q', 2))
-UNITS['bqmx1_2'] = dict(wrapper='w_cq.cpp', mode='lcs', unroll=1, cxxflags=['-DELEM=1', '-DBOUNDED=1', '-DREALCPP=2', '-DABORTS=1', '-D__TBB_BUILD=1'], cut=MONCUT, devirt=['sleep_node'], prune=True,
+UNITS['bqmx1_2'] = dict(wrapper='w_cq.cpp', mode='lcs', unroll=1, cxxflags=['-DELEM=1', '-DBOUNDED=1', '-DREALCPP=2', '-DABORTS=1', '-D__TBB_BUILD=1'], cut=MONCUT, devirt=['sleep_node', 'delegated_function'], prune=True,
                         exceptions=True, allow_atomic=['__clang_call_terminate'], lvalpath=True, immutable=IMMB, threads=thr('vp_thr_q', 2))
 HARNESSES = [
   dict(name='cq_big_2t', unit='cq1_2', harness='h_cq.c', defines={'NT': 2, 'ITEMS_PER_PAGE': 1},
